@@ -3,8 +3,23 @@
    Codes 1..9: the implementation differs from the model (Model/StateStore.v over the sorted-list DKV spec).
    Codes 10..19: the observed KeyStates violate the specification predicate of Props/C03.v, checked by a plain
    per-key map oracle (a log of mutations, newest first; no byte encoding, no sorted structure shared with the model). *)
+From Coq Require Import Uint63.
 From RV Require Import Model.StateStore.
 Open Scope N_scope.
+
+(* Byte strings are printed by the engine packed 7 bytes per 63-bit word (Coq elaborates a primitive integer
+   literal ~13x faster than seven list cells): [B len words] is the big-endian expansion, the last word holding
+   the remaining len mod 7 (or 7) bytes. *)
+Fixpoint take_be (n : nat) (x : N) (acc : bytes) : bytes :=
+  match n with O => acc | S n' => take_be n' (x / 256) (x mod 256 :: acc) end.
+Fixpoint B_words (len : nat) (ws : list int) : bytes :=
+  match ws with
+  | [] => []
+  | w :: ws' =>
+      let x := Z.to_N (Uint63.to_Z w) in
+      if (len <=? 7)%nat then take_be len x [] else take_be 7 x [] ++ B_words (len - 7) ws'
+  end.
+Definition B (len : N) (ws : list int) : bytes := B_words (N.to_nat len) ws.
 
 Inductive ostep :=
 | OBatch (evs : list bytes)            (* subject keys of the batch the script expects *)
@@ -15,6 +30,19 @@ Inductive ostep :=
 | ORestore (id : N).
 
 Inductive case := Case (count : N) (steps : list ostep).
+
+(* key groups are computed once per distinct subject key of a case (murmur over a long key costs milliseconds) *)
+Fixpoint assoc_bytes (k : bytes) (l : list (bytes * N)) : option N :=
+  match l with [] => None | (x, g) :: l' => if beqb k x then Some g else assoc_bytes k l' end.
+Definition memo_kgf (count : N) (tbl : list (bytes * N)) (k : bytes) : N :=
+  match assoc_bytes k tbl with Some g => g | None => key_group count k end.
+Definition step_keys (st : ostep) : list bytes :=
+  match st with
+  | OBatch evs resp o_evs o_states => evs ++ map kr_key resp ++ o_evs ++ map fst o_states
+  | _ => []
+  end.
+Definition kg_table (count : N) (steps : list ostep) : list (bytes * N) :=
+  map (fun k => (k, key_group count k)) (distinct_keys [] (flat_map step_keys steps)).
 
 Fixpoint list_eqb {A} (eqb : A -> A -> bool) (a b : list A) : bool :=
   match a, b with
@@ -101,12 +129,12 @@ Record cst := { c_db : kvlist; c_saved : list (N * kvlist); c_log : olog; c_lsav
 
 Definition dedup (l : list N) : list N := fold_right (fun x acc => if existsb (N.eqb x) acc then acc else x :: acc) [] l.
 
-Definition check_step (count : N) (y : cst) (st : ostep) : cst * list N :=
+Definition check_step (kgf : bytes -> N) (y : cst) (st : ostep) : cst * list N :=
   match st with
   | OBatch evs resp o_evs o_states =>
       let keys := sort_keys (distinct_keys [] evs) in
-      let model := fetch_states list_kv count keys (c_db y) in
-      let db' := fold_left (apply_result list_kv count (fun _ _ => true)) resp (c_db y) in
+      let model := fetch_states list_kv kgf keys (c_db y) in
+      let db' := fold_left (apply_result list_kv kgf (fun _ _ => true)) resp (c_db y) in
       let y' := {| c_db := db'; c_saved := c_saved y; c_log := olog_response (c_log y) resp; c_lsaved := c_lsaved y |} in
       let codes :=
         (if list_eqb bytes_eqb evs o_evs then [] else [2]) ++
@@ -127,16 +155,17 @@ Definition check_step (count : N) (y : cst) (st : ostep) : cst * list N :=
       end
   end.
 
-Fixpoint check_steps (count : N) (y : cst) (steps : list ostep) : list N :=
+Fixpoint check_steps (kgf : bytes -> N) (y : cst) (steps : list ostep) : list N :=
   match steps with
   | [] => []
-  | st :: steps' => let (y', c) := check_step count y st in c ++ check_steps count y' steps'
+  | st :: steps' => let (y', c) := check_step kgf y st in c ++ check_steps kgf y' steps'
   end.
 
 Definition check_case (c : case) : list N :=
   match c with
   | Case count steps =>
-      dedup (check_steps count {| c_db := []; c_saved := []; c_log := []; c_lsaved := [] |} steps)
+      let tbl := kg_table count steps in
+      dedup (check_steps (memo_kgf count tbl) {| c_db := []; c_saved := []; c_log := []; c_lsaved := [] |} steps)
   end.
 
 Definition run (cases : list (N * case)) : list (N * N) :=
